@@ -203,6 +203,8 @@ func (p c05) hostileSession(c *fw.Ctx, uniq *int) []string {
 		fn := fresh("f")
 		v := fresh("i")
 		in = append(in, fmt.Sprintf("func %s(n) {for %s = n {if %s == 2 {return %s * 10}}; -1}", fn, v, v, v))
+		in = append(in, fmt.Sprintf("func %sb(n) {for %s = n {if %s == 2 {return %s}}; -1}", fn, v, v, v), fmt.Sprintf("[%sb(5), %sb(1), %sb(3)]", fn, fn, fn),
+			fmt.Sprintf("func %sc(n) {for %s = 1:n {for j%s = 2 {if %s + j%s == 3 {return j%s}}}}", fn, v, v, v, v, v), fmt.Sprintf("[%sc(5), %sc(2)]", fn, fn))
 		for k := 0; k < 20; k++ {
 			in = append(in, fmt.Sprintf("%s(%d)", fn, r.IntN(5)))
 		}
@@ -223,6 +225,8 @@ func (p c05) hostileSession(c *fw.Ctx, uniq *int) []string {
 			// large containers indexed by the name, and the constructs that disqualify a register placed inside literals
 			"print(bm[V], bm[V + 1], ba[V])", "bm[V] = V; print(bm)", "print(bm[V] == nil, ba[V] + 1)",
 			"print({\"v\": V, \"get\": () => V + 1}.get())", "print([V, () => V * 2][1]())", "print({\"k\": V++, \"j\": V})", "print([(V = V + 1), V])",
+			"for q = 2 {q++; print(q)}", "for q = 2 {q--}", "for q = 3 {--q; print(q, V)}", "for q = 2 {for q2 = 2 {q2++}; print(q)}", "for q = 2 {q = q + 1}; print(V)",
+			"if V == 1 {return V}", "for q = 3 {if q == 1 {return q}}", "for q = 1:4 {if q == 2 {return [q][0]}; if q == 3 {return q}}",
 			"print({V: () => V})", "print({\"a\": {\"b\": [x => x + V]}}.a.b[0](1))", "print(if V > 0 {{\"f\": () => V}.f()} else {0})"}
 		setup := "cv = 0; qv = 0; bm = {0: \"a\", 1: \"b\", 2: \"c\", 3: \"d\", 4: \"e\", 5: \"f\", \"s\": 1, 2.5: 2}; ba = [0, 1, 2, 3, 4, 5, 6, 7, 8, 9, 10]; a = [10, 20, 30, 40]; m = {\"V\": 5, \"k\": 1, 1: \"one\"}; mf = {\"V\": z => z * 3}; s = \"hello\"; t = 0"
 		var body []string
